@@ -432,7 +432,8 @@ impl World {
         for (k, t) in &self.model.trackers {
             exp_tr.insert(model::uuid_of(&k.1, &user_pk(k.0 as u8)), (*k, t));
         }
-        let unspecified: BTreeSet<Vec<u8>> = self.model.unspecified.iter().map(|k| model::uuid_of(&k.1, &user_pk(k.0 as u8))).collect();
+        let maybe_dropped: BTreeSet<Vec<u8>> = self.model.maybe_dropped.iter().map(|k| model::uuid_of(&k.1, &user_pk(k.0 as u8))).collect();
+        let tracker_optional: BTreeSet<Vec<u8>> = self.model.tracker_optional.iter().map(|k| model::uuid_of(&k.1, &user_pk(k.0 as u8))).collect();
         let blame = |this: &World, k: &model::Key, default: &'static str| -> &'static str {
             if let Some((_, p)) = this.model.touched.iter().rev().find(|(kk, _)| kk == k) {
                 return p;
@@ -446,7 +447,7 @@ impl World {
         };
         let mut problem: Option<(String, String, String)> = None;
         for (uuid, (k, a)) in &exp_appts {
-            if unspecified.contains(uuid) {
+            if maybe_dropped.contains(uuid) && !snap.appointments.contains_key(uuid) {
                 continue;
             }
             match snap.appointments.get(uuid) {
@@ -468,7 +469,7 @@ impl World {
         }
         if problem.is_none() {
             for (uuid, row) in &snap.appointments {
-                if unspecified.contains(uuid) || exp_appts.contains_key(uuid) {
+                if exp_appts.contains_key(uuid) {
                     continue;
                 }
                 // find the key for blame
@@ -481,7 +482,7 @@ impl World {
         }
         if problem.is_none() {
             for (uuid, (k, t)) in &exp_tr {
-                if unspecified.contains(uuid) {
+                if maybe_dropped.contains(uuid) && !snap.appointments.contains_key(uuid) {
                     continue;
                 }
                 match snap.trackers.get(uuid) {
@@ -514,7 +515,7 @@ impl World {
         }
         if problem.is_none() {
             for uuid in snap.trackers.keys() {
-                if unspecified.contains(uuid) || exp_tr.contains_key(uuid) {
+                if tracker_optional.contains(uuid) || exp_tr.contains_key(uuid) {
                     continue;
                 }
                 problem = Some(("C02".into(), "tracker-without-justification".into(), format!("after {op_desc}: tracker {} exists although the model has no responded appointment for it", hex::encode(uuid))));
@@ -526,36 +527,34 @@ impl World {
             return false;
         }
         let exp_tr_keys: BTreeMap<Vec<u8>, (model::Key, ())> = exp_tr.iter().map(|(u, (k, _))| (u.clone(), (*k, ()))).collect();
-        // adopt unspecified outcomes
-        let keys: Vec<model::Key> = self.model.unspecified.iter().cloned().collect();
+        // adopt the outcomes the properties leave open
+        let keys: Vec<model::Key> = self.model.maybe_dropped.iter().cloned().collect();
         for k in keys {
             let uuid = model::uuid_of(&k.1, &user_pk(k.0 as u8));
-            match snap.appointments.get(&uuid) {
-                Some(row) => {
-                    self.model.appts.insert(k, MAppt { blob: row.blob.clone(), delay: row.delay, sig: row.user_signature.clone(), start_block: row.start_block });
+            if !snap.appointments.contains_key(&uuid) {
+                if let Some(a) = self.model.appts.remove(&k) {
+                    if let Some(u) = self.model.users.get_mut(&k.0) {
+                        u.forfeited += spec_slots(a.blob.len()) as u64;
+                    }
                 }
-                None => {
-                    self.model.appts.remove(&k);
-                }
+                self.model.trackers.remove(&k);
             }
-            match snap.trackers.get(&uuid) {
-                Some(row) => {
-                    let last = self.model.carrier_height;
-                    let prev = self.model.trackers.get(&k).map(|t| t.last_submit);
-                    self.model.trackers.insert(
-                        k,
-                        MTracker {
-                            dispute: consensus::deserialize(&row.dispute_tx).unwrap(),
-                            penalty: consensus::deserialize(&row.penalty_tx).unwrap(),
-                            status: if row.confirmed { MStatus::Conf(row.height) } else { MStatus::Unconf },
-                            last_submit: prev.unwrap_or(last),
-                            since: None,
-                        },
-                    );
-                }
-                None => {
-                    self.model.trackers.remove(&k);
-                }
+        }
+        let keys: Vec<model::Key> = self.model.tracker_optional.iter().cloned().collect();
+        for k in keys {
+            let uuid = model::uuid_of(&k.1, &user_pk(k.0 as u8));
+            if let (Some(row), false) = (snap.trackers.get(&uuid), self.model.trackers.contains_key(&k)) {
+                let last = self.model.carrier_height;
+                self.model.trackers.insert(
+                    k,
+                    MTracker {
+                        dispute: consensus::deserialize(&row.dispute_tx).unwrap(),
+                        penalty: consensus::deserialize(&row.penalty_tx).unwrap(),
+                        status: if row.confirmed { MStatus::Conf(row.height) } else { MStatus::Unconf },
+                        last_submit: last,
+                        since: None,
+                    },
+                );
             }
         }
         // adopt the tower's private "in mempool since" clock (see MTracker::since)
@@ -569,8 +568,10 @@ impl World {
         // C07 conservation on the model side (the model equals the store at this point)
         for (i, u) in &self.model.users {
             let held: u64 = self.model.appts.iter().filter(|(k, _)| k.0 == *i).map(|(_, a)| spec_slots(a.blob.len()) as u64).sum();
-            if u.granted != u.avail as u64 + held + u.forfeited && self.model.unspecified.is_empty() {
-                // only reachable through adopted (unspecified) outcomes; re-base instead of reporting
+            if u.granted != u.avail as u64 + held + u.forfeited {
+                let msg = format!("after {op_desc}: user {i}: granted {} != available {} + held {} + forfeited {}", u.granted, u.avail, held, u.forfeited);
+                self.fail("C07", "conservation-broken", msg);
+                return false;
             }
         }
         // C02: a freshly responded appointment's penalty must be known to the node (or be in the tower's view)
